@@ -145,7 +145,7 @@ impl Rw {
             closure_counter: 0,
             noop_methods: HashSet::new(),
             guards: HashSet::new(),
-            allow_log_calls: false,
+            allow_log_calls: true, // log arguments are never needed by a property; those that contain calls are dropped unevaluated and recorded
             loop_await_rule: None,
             loop_stack: Vec::new(),
             live_guards: Vec::new(),
@@ -355,6 +355,14 @@ impl VisitMut for Rw {
                 }
                 Stmt::Macro(m) => {
                     let name = macro_name(&m.mac);
+                    if name == "debug_assert" || name == "debug_assert_eq" || name == "debug_assert_ne" {
+                        // R5b: debug assertions are compiled out of release builds, whose behaviour the properties are about
+                        self.log.push(format!("R5b {name}! dropped (release semantics: debug assertions are not evaluated)"));
+                        if m.semi_token.is_none() {
+                            keep.push(Stmt::Expr(parse_quote!(()), None));
+                        }
+                        continue;
+                    }
                     if LOG_MACROS.contains(&name.as_str()) {
                         self.check_log_args(&m.mac);
                         self.log.push(format!("R5 {name}! dropped"));
@@ -957,6 +965,9 @@ impl VisitMut for Rw {
                     m.mac.tokens = inner.to_token_stream();
                     m.mac.path = parse_quote!(ready);
                     None
+                } else if name == "debug_assert" || name == "debug_assert_eq" || name == "debug_assert_ne" {
+                    self.log.push(format!("R5b {name}! dropped (release semantics: debug assertions are not evaluated)"));
+                    Some(parse_quote!(()))
                 } else if LOG_MACROS.contains(&name.as_str()) {
                     self.check_log_args(&m.mac);
                     self.log.push(format!("R5 {name}! dropped (expression position)"));
